@@ -223,6 +223,7 @@ func runC37(c *Ctx) []Obligation {
 		{Prop: P, ID: "format.MapToSlice.only-that-form", Fn: "codec.MapToSlice", Target: CallTo(`^fmt\.Sprintf\(`).Except(`^fmt\.Sprintf\("%s:%d", \[next\(range\(m\)\)#1, next\(range\(m\)\)#2\]\)$`), Why: "name first, height second, colon between"},
 	})...)
 	out = append(out, c.featurePredicatesAgree(P)...)
+	out = append(out, upgradeMergeReadsStored(c, P)...)
 	return out
 }
 
